@@ -478,10 +478,82 @@ func runC15(args []string) int {
 	} else {
 		r.Notes = append(r.Notes, "no field name snapshot")
 	}
+	// the lookup tables are process-wide and every call consults them: using the library -- here Encode of Files whose
+	// array fields are longer than the profile length, two messages per type so that the per-type definition of
+	// encodeFile is shared -- must leave every entry as it was read at the start of this run (the entries judged above);
+	// an entry that changes under use makes "encoded sizes fit in one byte" a matter of history
+	{
+		for _, mi := range p.msgs {
+			ft, hosted := fileTypeHosting(mi.Num)
+			if !hosted {
+				continue
+			}
+			for _, pf := range mi.Fields {
+				if !pf.T.Array() || pf.T.BaseType() == types.BaseString || pf.GoType == nil || pf.GoType.Kind() != reflect.Slice {
+					continue
+				}
+				f, _ := fitNewFile(ft)
+				for _, n := range []int{130, 1} {
+					pv, ok := fit.VerifNewMesg(int(mi.Num))
+					if !ok {
+						continue
+					}
+					pv.Elem().Field(pf.Sindex).Set(reflect.MakeSlice(pf.GoType, n, n))
+					in := reflect.New(pv.Elem().Type()).Elem()
+					in.Set(pv.Elem())
+					fit.VerifFileAdd(f, in)
+				}
+				func() {
+					defer func() { recover() }()
+					var buf bytes.Buffer
+					fit.Encode(&buf, f, binary.LittleEndian)
+				}()
+				r.hist("encode_overlong_arrays_before_table_recheck")
+			}
+		}
+		theProfile = nil
+		p2 := profile()
+		theProfile = p
+		now := map[string]string{}
+		for _, mi := range p2.msgs {
+			for _, pf := range mi.Fields {
+				now[fmt.Sprintf("%d.%d", mi.Num, pf.Num)] = fmt.Sprintf("sindex=%d type=%d length=%d", pf.Sindex, pf.T, pf.Length)
+			}
+		}
+		nent := 0
+		for _, mi := range p.msgs {
+			for _, pf := range mi.Fields {
+				k := fmt.Sprintf("%d.%d", mi.Num, pf.Num)
+				was := fmt.Sprintf("sindex=%d type=%d length=%d", pf.Sindex, pf.T, pf.Length)
+				nent++
+				if now[k] != was {
+					r.specFail("profile_table_mutated", fmt.Sprintf("lookup entry %s was (%s) at the start of the run and is (%s) after Encode calls with arrays longer than the profile length (base size x length now %d)", k, was, now[k], pf.T.BaseType().Size()*int(p2.byNum[mi.Num].fieldLen(pf.Num))),
+						map[string]interface{}{"entry": k, "before": was, "after": now[k], "history": "Encode of a File with two messages of the entry's type whose array field has 130 and 1 elements"})
+				}
+				delete(now, k)
+			}
+		}
+		for k, v := range now {
+			r.specFail("profile_table_mutated", fmt.Sprintf("lookup entry %s (%s) appeared during the run", k, v), map[string]interface{}{"entry": k})
+		}
+		r.Extra["entries_rechecked_after_use"] = nent
+	}
 	// the model-side checker and the implementation-side oracle must agree
 	if len(modelBad) > 0 && len(r.SpecFails) == 0 {
 		r.corrFail("profile_wf", "profile_wf is false on the regenerated tables but no entry fails on the implementation: "+resp, map[string]interface{}{"report": resp})
 	}
 	r.Extra["entries"] = len(names)
 	return r.finish()
+}
+
+func (m *pmsgInfo) fieldLen(num byte) byte {
+	if m == nil {
+		return 0
+	}
+	for _, f := range m.Fields {
+		if f.Num == num {
+			return f.Length
+		}
+	}
+	return 0
 }
